@@ -4,7 +4,7 @@ from . import driver
 from .unit import VERIF
 
 
-GROUPS = {'limbs': ('fq_repr', 'fr_repr', 'fq_field', 'fr_field'), 'window': ('pippenger_window',)}
+GROUPS = {'limbs': ('fq_repr', 'fr_repr', 'fq_field', 'fr_field', 'limb_helpers'), 'window': ('pippenger_window',)}
 
 
 def run(timeout=3000, jobs=12, group=None):
